@@ -744,6 +744,15 @@ func classifyBlocking(c *core.Ctx, s *Stage, pr *proc, p *ir.Path, i int) (verdi
 		if d < 0 {
 			return "bad", "blocking select without a <-ctx.Done() arm of the stage's context"
 		}
+		live := 0
+		for ai, a := range st.Arms {
+			if ai != d && a.Chan != nil && !a.Chan.IsNil() {
+				live++
+			}
+		}
+		if live == 0 && len(st.Arms) > 1 {
+			return "bad", "on this path every arm of the blocking select but <-ctx.Done() is a nil channel: the goroutine parks until cancellation (its input is no longer consumed and its outputs never close without a cancel)"
+		}
 		if st.Chosen == d {
 			// continuation must exit without blocking again (accounted sends allowed)
 			if p.Exit != ir.ExitReturn {
